@@ -149,6 +149,13 @@ pub fn read_dir(p: &std::path::Path) -> (r: std::io::Result<DirIter>)
     ensures r matches Ok(it) ==> it.obeys_prophetic_iter_laws() && it.decrease() is Some && it.remaining() == crate::vfs::dir_listing(p),
 { Ok(DirIter { inner: std::fs::read_dir(p)? }) }
 
+/// R32: `deque.extend(slice.iter().copied())`.  Assumed (std contract of Extend for VecDeque): the bytes are appended in order.
+#[verifier::external_body]
+pub fn extend_copied(v: &mut std::collections::VecDeque<u8>, s: &[u8])
+    ensures
+        final(v)@ == old(v)@ + s@,
+{ v.extend(s.iter().copied()) }
+
 /// R24: `(a..b).take_while(p).map(f)`.  Assumed (std contracts of Range<usize>, Iterator::take_while, Iterator::map): the result is a finite
 /// well-behaved iterator yielding f(a), f(a+1), .., f(k-1) where k is the first index in a..b that p rejects (k = b if there is none);
 /// p is only called on a..=k and f only on indices p accepted.  Closures are `Fn` (the repo's do not mutate their captures).
